@@ -1,6 +1,7 @@
 import GoguVerif.Go.Run
 import GoguVerif.Kinds.Common
 import GoguVerif.Spec.C09
+import GoguVerif.Model.Trie
 /-! Driver wiring for C09: spec monitor (+ model correspondence). -/
 namespace GoguVerif.Kinds
 open GoguVerif
@@ -32,6 +33,8 @@ def renderOut : Out → List Val
 
 structure St where
   m : List (Key × Int) := []
+  /-- the model of `trie.go`, run beside the monitor -/
+  model : Model.Trie.Trie := {}
   nested : Bool := false      -- some stored key is a proper prefix of another stored key
 
 def kind : Kind where
@@ -42,12 +45,19 @@ def kind : Kind where
     | none => { st := st, bad := some s!"bad trie op {l.op}" }
     | some op =>
       let (m', o) := Spec.C09.step st.m op
+      -- the model's answer (`none` = the model predicts a Go panic; the case ends there)
+      let (model', mo) := match Model.Trie.step st.model op with
+        | some (t', o) => (t', renderOut o)
+        | none => (st.model, [Val.atom "panic"])
       let nested := st.nested || m'.any (fun a => m'.any (fun b => a.1 != b.1 && isPrefix a.1 b.1))
-      let st' : St := { m := m', nested := nested }
+      let st' : St := { m := m', model := model', nested := nested }
       match failRes l.res with
-      | some c => { st := st', tags := [l.op], spec := some s!"{c}:{l.op}" }
+      | some c => { st := st', tags := [l.op], model := some mo, spec := some s!"{c}:{l.op}" }
       | none =>
         { st := st', tags := [l.op], nontrivial := nested && m'.length ≥ 3
+          -- every answer of these calls is an observable the property names (Get/Contains/Size results,
+          -- drained queue contents, LongestPrefix result, error flags); nothing of the layout is compared
+          model := some mo
           spec := if renderOut o == l.res then none else some s!"string-map:{l.op}" }
 
 end Trie
